@@ -41,6 +41,7 @@
 #include "state.h"
 #include "status.h"
 #include "util.h"
+#include "verif_hooks.h"
 
 using namespace std;
 
@@ -656,6 +657,7 @@ void Builder::Cleanup() {
     }
   }
 
+  VERIF_EVENT("Cleanup", nullptr, "");
   string err;
   if (disk_interface_->Stat(lock_file_path_, &err) > 0)
     disk_interface_->RemoveFile(lock_file_path_);
@@ -773,6 +775,7 @@ ExitStatus Builder::Build(string* err) {
     if (pending_commands) {
       // Tell command runner that if jobserver tokens become available while
       // waiting, it should notify us - but only if we have more work to do.
+      VERIF_EVENT("Wait", nullptr, "");
       const bool watch_jobserver = plan_.work_ready();
       BuildResult result =
           command_runner_->WaitForCommandOrJobserverToken(watch_jobserver);
@@ -889,6 +892,8 @@ bool Builder::StartEdge(Edge* edge, string* err) {
       return false;
   }
 
+  VERIF_EVENT("StartEdge", edge, "");
+  VERIF_CRASH_POINT("start");
   // start command computing and run it
   if (!command_runner_->StartCommand(edge)) {
     err->assign("command '" + edge->EvaluateCommand() + "' failed.");
@@ -924,6 +929,8 @@ bool Builder::FinishCommand(BuildResult::CommandCompleted& result,
     }
   }
 
+  VERIF_EVENT("Fin:ExtractDeps", edge, result.success() ? "ok" : "fail");
+  VERIF_CRASH_POINT("fin-extractdeps");
   int64_t start_time_millis, end_time_millis;
   RunningEdgeMap::iterator it = running_edges_.find(edge);
   start_time_millis = it->second;
@@ -933,6 +940,7 @@ bool Builder::FinishCommand(BuildResult::CommandCompleted& result,
   status_->BuildEdgeFinished(edge, start_time_millis, end_time_millis,
                              result.status, result.output);
 
+  VERIF_EVENT("Fin:Status", edge, result.success() ? "ok" : "fail");
   // The rest of this function only applies to successful commands.
   if (!result.success()) {
     return plan_.EdgeFinished(edge, Plan::kEdgeFailed, err);
@@ -974,14 +982,20 @@ bool Builder::FinishCommand(BuildResult::CommandCompleted& result,
     }
   }
 
+  VERIF_EVENT("Fin:Restat", edge, "");
+  VERIF_CRASH_POINT("fin-restat");
   if (!plan_.EdgeFinished(edge, Plan::kEdgeSucceeded, err))
     return false;
 
+  VERIF_EVENT("Fin:PlanFinished", edge, "");
+  VERIF_CRASH_POINT("fin-planfinished");
   // Delete any left over response file.
   string rspfile = edge->GetUnescapedRspfile();
   if (!rspfile.empty() && !g_keep_rsp)
     disk_interface_->RemoveFile(rspfile);
 
+  VERIF_EVENT("Fin:RspRemove", edge, "");
+  VERIF_CRASH_POINT("fin-rspremove");
   if (scan_.build_log()) {
     if (!scan_.build_log()->RecordCommand(
             edge, static_cast<int>(start_time_millis),
@@ -991,6 +1005,8 @@ bool Builder::FinishCommand(BuildResult::CommandCompleted& result,
     }
   }
 
+  VERIF_EVENT("Fin:LogAppend", edge, "");
+  VERIF_CRASH_POINT("fin-logappend");
   if (!deps_type.empty() && !config_.dry_run) {
     assert(!edge->outputs_.empty() && "should have been rejected by parser");
     for (std::vector<Node*>::const_iterator o = edge->outputs_.begin();
@@ -1002,6 +1018,8 @@ bool Builder::FinishCommand(BuildResult::CommandCompleted& result,
         *err = std::string("Error writing to deps log: ") + strerror(errno);
         return false;
       }
+      VERIF_EVENT("Fin:DepsAppend", edge, (*o)->path().c_str());
+      VERIF_CRASH_POINT("fin-depsappend");
     }
   }
   return true;
